@@ -19,7 +19,7 @@ Abstractions (DESIGN.md section 8):
   `extra` (everything the file does not declare: labels, status, ...).
 * Server side: `exec` below (create fails on an existing name, update carries the
   object it was computed from = resourceVersion precondition, a merge patch only
-  touches declared fields, a write that changes nothing is not counted).
+  touches declared fields).
 -/
 namespace Xp.C20
 
@@ -117,7 +117,6 @@ structure Store where
   lock : Option Int              -- the Lock "lock" (payload: its packages)
   sc : Option (String × Int)     -- StoreConfig "default": (defaultScope, extra)
   drc : Option Int               -- DeploymentRuntimeConfig "default"
-  writes : Nat                   -- ghost: number of writes that changed something
   deriving DecidableEq, Repr, Inhabited
 
 /-! ### files and configuration -/
@@ -198,9 +197,6 @@ inductive Resp where
   | lock (n : Int)
   deriving Repr, Inhabited
 
-/-- a write is counted (and bumps resourceVersion on the real server) only if it changes something -/
-def commit (s s' : Store) : Store := if s' = s then s else { s' with writes := s.writes + 1 }
-
 def findSecret (s : Store) (n : String) : Option Secret := s.secrets.find? (·.name = n)
 def findPkg (s : Store) (k : PKind) (n : String) : Option Pkg := s.pkgs.find? (fun p => p.kind = k ∧ p.name = n)
 def findCrd (s : Store) (n : String) : Option Crd := s.crds.find? (·.name = n)
@@ -235,61 +231,61 @@ def exec (s : Store) : Req → Store × Resp
   | .createSecret x =>
     match findSecret s x.name with
     | some _ => (s, .err .alreadyExists)
-    | none => (commit s { s with secrets := s.secrets ++ [x] }, .ok)
+    | none => ({ s with secrets := s.secrets ++ [x] }, .ok)
   | .updateSecret old new =>
     match findSecret s new.name with
     | none => (s, .err .notFound)
     | some cur =>
-      if cur = old then (commit s { s with secrets := s.secrets.map fun x => if x.name = new.name then new else x }, .ok)
+      if cur = old then ({ s with secrets := s.secrets.map fun x => if x.name = new.name then new else x }, .ok)
       else (s, .err .conflict)
   | .listPkgs k => (s, .pkgs (sortBy (fun a b => strLe a.name b.name) (s.pkgs.filter (·.kind = k))))
   | .getPkg k n => (s, match findPkg s k n with | some p => .pkg p | none => .err .notFound)
   | .createPkg p =>
     match findPkg s p.kind p.name with
     | some _ => (s, .err .alreadyExists)
-    | none => (commit s { s with pkgs := s.pkgs ++ [p] }, .ok)
+    | none => ({ s with pkgs := s.pkgs ++ [p] }, .ok)
   | .patchPkg k n r =>
     match findPkg s k n with
     | none => (s, .err .notFound)
-    | some _ => (commit s { s with pkgs := s.pkgs.map fun p => if p.kind = k ∧ p.name = n then { p with raw := r.str, ref := some r } else p }, .ok)
+    | some _ => ({ s with pkgs := s.pkgs.map fun p => if p.kind = k ∧ p.name = n then { p with raw := r.str, ref := some r } else p }, .ok)
   | .getCrd n => (s, match findCrd s n with | some c => .crd c | none => .err .notFound)
   | .createCrd c =>
     match findCrd s c.name with
     | some _ => (s, .err .alreadyExists)
-    | none => (commit s { s with crds := s.crds ++ [c] }, .ok)
+    | none => ({ s with crds := s.crds ++ [c] }, .ok)
   | .patchCrd f cb =>
     match findCrd s f.name with
     | none => (s, .err .notFound)
-    | some _ => (commit s { s with crds := s.crds.map fun c => if c.name = f.name then patchCrdWith f cb c else c }, .ok)
+    | some _ => ({ s with crds := s.crds.map fun c => if c.name = f.name then patchCrdWith f cb c else c }, .ok)
   | .getWhc k n => (s, match findWhc s k n with | some w => .whc w | none => .err .notFound)
   | .createWhc w =>
     match findWhc s w.kind w.name with
     | some _ => (s, .err .alreadyExists)
-    | none => (commit s { s with whcs := s.whcs ++ [w] }, .ok)
+    | none => ({ s with whcs := s.whcs ++ [w] }, .ok)
   | .patchWhc k n hooks =>
     match findWhc s k n with
     | none => (s, .err .notFound)
-    | some _ => (commit s { s with whcs := s.whcs.map fun w => if w.kind = k ∧ w.name = n then patchWhcWith hooks w else w }, .ok)
+    | some _ => ({ s with whcs := s.whcs.map fun w => if w.kind = k ∧ w.name = n then patchWhcWith hooks w else w }, .ok)
   | .listCrs crd => (s, .crs (sortBy (fun a b => strLe a.name b.name) (s.crs.filter (·.crd = crd))))
   | .patchCr crd n => (s, if s.crs.any (fun c => c.crd = crd ∧ c.name = n) then .ok else .err .notFound)
   | .patchCrdStored n vs =>
     match findCrd s n with
     | none => (s, .err .notFound)
-    | some _ => (commit s { s with crds := s.crds.map fun c => if c.name = n then { c with stored := vs } else c }, .ok)
+    | some _ => ({ s with crds := s.crds.map fun c => if c.name = n then { c with stored := vs } else c }, .ok)
   | .getLock => (s, match s.lock with | some n => .lock n | none => .err .notFound)
   | .createLock =>
     match s.lock with
     | some _ => (s, .err .alreadyExists)
-    | none => (commit s { s with lock := some 0 }, .ok)
+    | none => ({ s with lock := some 0 }, .ok)
   | .patchLock => (s, match s.lock with | some _ => .ok | none => .err .notFound)
   | .createSc scope =>
     match s.sc with
     | some _ => (s, .err .alreadyExists)
-    | none => (commit s { s with sc := some (scope, 0) }, .ok)
+    | none => ({ s with sc := some (scope, 0) }, .ok)
   | .createDrc =>
     match s.drc with
     | some _ => (s, .err .alreadyExists)
-    | none => (commit s { s with drc := some 0 }, .ok)
+    | none => ({ s with drc := some 0 }, .ok)
 
 def sem : Sem Store Req Resp where
   exec := exec
@@ -353,13 +349,19 @@ def writeSecret (old : Option Secret) (new : Secret) : Req :=
   | some o => .updateSecret o new
   | none => .createSecret new
 
-/-- the generating branch of loadOrGenerateCA; `old` = the incomplete secret that was read -/
+def caSecret (caName : String) (old : Option Secret) (kp : Nat) (c : CertInfo) : Secret :=
+  { (old.getD (blankSecret caName)) with name := caName, crt := .cert c, key := .key kp, ca := .empty, others := 0 }
+
+def leafSecret (name : String) (old : Option Secret) (kp : Nat) (c : CertInfo) (signer : Signer) : Secret :=
+  { (old.getD (blankSecret name)) with name := name, crt := .cert c, key := .key kp, ca := .cert signer.cert }
+
+/-- the generating branch of loadOrGenerateCA; `old` = the incomplete secret that was read
+(`caSecret.Data = map[...]` replaces the whole data map) -/
 def genCA (g : Generator) (caName : String) (old : Option Secret) (n : Nat) : P (Option Signer × Nat) :=
   match g ["crossplane-root-ca"] true none n with
   | none => .ret (none, n + 1)
   | some (kp, c) =>
-    let new : Secret := { (old.getD (blankSecret caName)) with name := caName, crt := .cert c, key := .key kp, ca := .empty, others := 0 }
-    .call (writeSecret old new) fun r =>
+    .call (writeSecret old (caSecret caName old kp c)) fun r =>
       match r with
       | .ok => .ret (some ⟨kp, c⟩, n + 1)
       | _ => .ret (none, n + 1)
@@ -375,22 +377,23 @@ def loadOrGenerateCA (g : Generator) (caName : String) (n : Nat) : P (Option Sig
     | .secret sec => if isComplete sec then .ret (parseSigner sec.key sec.crt, n) else genCA g caName (some sec) n
     | _ => .ret (none, n)
 
+/-- the generating branch of ensureServerCertificate / ensureClientCertificate; `old` = the secret that was read -/
+def issueLeaf (g : Generator) (ref : TlsRef) (signer : Signer) (n : Nat) (old : Option Secret) : P (Res × Nat) :=
+  if ref.dns = [] then .ret (.err "tls: no DNS names", n) else
+  match g ref.dns false (some signer) n with
+  | none => .ret (.err "tls: generate", n + 1)
+  | some (kp, c) =>
+    .call (writeSecret old (leafSecret ref.name old kp c signer)) fun r =>
+      match r with
+      | .ok => .ret (.ok, n + 1)
+      | _ => .ret (.err "tls: write", n + 1)
+
 /-- ensureServerCertificate / ensureClientCertificate (they differ in key usage only) -/
 def ensureLeaf (g : Generator) (ref : TlsRef) (signer : Signer) (n : Nat) : P (Res × Nat) :=
   .call (.getSecret ref.name) fun r =>
-    let issue (old : Option Secret) : P (Res × Nat) :=
-      if ref.dns = [] then .ret (.err "tls: no DNS names", n) else
-      match g ref.dns false (some signer) n with
-      | none => .ret (.err "tls: generate", n + 1)
-      | some (kp, c) =>
-        let new : Secret := { (old.getD (blankSecret ref.name)) with name := ref.name, crt := .cert c, key := .key kp, ca := .cert signer.cert }
-        .call (writeSecret old new) fun r =>
-          match r with
-          | .ok => .ret (.ok, n + 1)
-          | _ => .ret (.err "tls: write", n + 1)
     match r with
-    | .err .notFound => issue none
-    | .secret sec => if hasMaterial sec then .ret (.ok, n) else issue (some sec)
+    | .err .notFound => issueLeaf g ref signer n none
+    | .secret sec => if hasMaterial sec then .ret (.ok, n) else issueLeaf g ref signer n (some sec)
     | _ => .ret (.err "tls: get", n)
 
 def ensureOpt (g : Generator) (ref : Option TlsRef) (signer : Signer) (n : Nat) : P (Res × Nat) :=
